@@ -478,6 +478,71 @@ def check_normalisers(ctx):
         ctx.violation(rule, op, 'Optional._compile', 'the when condition is not normalised from the value given to the constructor', op.node.lineno, clause='g')
 
 
+def check_modifier_plumbing(ctx):
+    """Field.repeated / Field.when hand every argument to the same-named constructor parameter;
+    the constructors keep them under the attributes the run-time code reads"""
+    repo = ctx.repo
+    rule = 'C08-modifier-plumbing'
+    fld = repo.cls('Field')
+    for mname, cname, want in (('repeated', 'Sequence', {'prototype': 'self', 'count': 'count', 'until': 'until', 'when': 'when', 'default': 'default', 'aligned': 'aligned'}),
+                               ('when', 'Optional', {'prototype': 'self', 'when': 'condition', 'default': 'default'})):
+        fi = fld.methods.get(mname)
+        ctor = repo.cls(cname).methods.get('__init__')
+        if fi is None or ctor is None:
+            ctx.undecided(rule, (fld.file, 'Field.' + mname), mname, 'modifier / constructor not found')
+            continue
+        cparams = [a.arg for a in ctor.node.args.args][1:]
+        calls = [n for n in ast.walk(fi.node) if isinstance(n, ast.Call) and call_name(n) == cname]
+        if len(calls) != 1:
+            ctx.violation(rule, fi, 'Field.%s' % mname, 'the modifier does not build exactly one %s' % cname, fi.node.lineno, clause='g')
+            continue
+        c = calls[0]
+        bound = dict(zip(cparams, [canon(a) for a in c.args]))
+        for k in c.keywords:
+            if k.arg:
+                bound[k.arg] = canon(k.value)
+        # the modifier's own parameter names
+        if mname == 'when':
+            mp = [a.arg for a in fi.node.args.args][1:]
+            want = {'prototype': 'self', 'when': mp[0] if mp else 'condition', 'default': mp[1] if len(mp) > 1 else 'default'}
+        bad = {k: bound.get(k) for k in want if bound.get(k) != want[k]}
+        st = 'Field.%s -> %s(%s)' % (mname, cname, ', '.join('%s=%s' % kv for kv in sorted(bound.items())))
+        if bad:
+            ctx.violation(rule, fi, st, 'arguments reach the wrong constructor parameter: %s (expected %s)' % (bad, {k: want[k] for k in bad}), c.lineno, clause='g')
+        else:
+            ctx.holds(rule, fi, st, 'every argument reaches the parameter of the same meaning', c.lineno, clause='g')
+    # constructors keep them where the run-time code reads them
+    sq = repo.cls('Sequence').methods.get('__init__')
+    keep = {}
+    for n in ast.walk(sq.node):
+        if isinstance(n, ast.Assign) and isinstance(n.targets[0], ast.Attribute) and canon(n.targets[0].value) == 'self':
+            keep[n.targets[0].attr] = canon(n.value)
+    if keep.get('prototype_field') == 'prototype' and keep.get('aligned_to') == 'aligned':
+        ctx.holds(rule, sq, 'Sequence.__init__: prototype_field = prototype; aligned_to = aligned', 'stored where unpack / pack read them', sq.node.lineno, clause='g')
+    else:
+        ctx.violation(rule, sq, 'Sequence.__init__ stores %s' % {k: keep.get(k) for k in ('prototype_field', 'aligned_to')}, 'the element prototype / alignment are not kept unchanged', sq.node.lineno, clause='g')
+    # exactly one of count / until
+    xor_ok = False
+    for n in ast.walk(sq.node):
+        if isinstance(n, ast.If) and any(isinstance(x, ast.Raise) for x in n.body):
+            t = canon(n.test)
+            if 'count is None' in t and 'until is None' in t and 'count is not None' in t and 'until is not None' in t:
+                xor_ok = True
+    if xor_ok:
+        ctx.holds(rule, sq, 'Sequence.__init__: exactly one of count / until, else ValueError', 'the two repetition modes are exclusive', sq.node.lineno, clause='g')
+    else:
+        ctx.violation(rule, sq, 'Sequence.__init__', 'a sequence with both or neither of count / until is accepted', sq.node.lineno, clause='g')
+    op = repo.cls('Optional').methods.get('__init__')
+    keep = {}
+    for n in ast.walk(op.node):
+        if isinstance(n, ast.Assign) and isinstance(n.targets[0], ast.Attribute) and canon(n.targets[0].value) == 'self':
+            keep[n.targets[0].attr] = canon(n.value)
+    if keep.get('prototype_field') == 'prototype':
+        ctx.holds(rule, op, 'Optional.__init__: prototype_field = prototype', 'stored where unpack / pack read it', op.node.lineno, clause='g')
+    else:
+        ctx.violation(rule, op, 'Optional.__init__ stores %s' % keep, 'the element prototype is not kept', op.node.lineno, clause='g')
+
+
 def check_late_binding(ctx):
     """(g) B023-style: a lambda / nested def defined in a loop body that reads the loop variable"""
     repo = ctx.repo
@@ -528,6 +593,7 @@ def check(ctx):
     check_optional(ctx, op)
     check_ref(ctx, rf)
     check_normalisers(ctx)
+    check_modifier_plumbing(ctx)
     check_late_binding(ctx)
     ctx.floor('obligations', len(ctx.obs), 20)
     ctx.trust(*ASSUMPTIONS)
